@@ -44,7 +44,14 @@ package plonk
 // plonky2 chooses num_partial_products = ceil(num_routed_wires / quotient_degree_factor) - 1, the last chunk may be shorter.
 //@ recdef qe_chunk_prod(t []QE, start int, k int) QE = ite(k <= 1, t[start], qe_mulo(qe_chunk_prod(t, start, k - 1), t[start + k - 1]))
 //@ def pp_relation(cd) = 1 <= cd.QuotientDegreeFactor && 1 <= cd.Config.NumRoutedWires && cd.NumPartialProducts * cd.QuotientDegreeFactor < cd.Config.NumRoutedWires && cd.Config.NumRoutedWires <= (cd.NumPartialProducts + 1) * cd.QuotientDegreeFactor
-//@ def pp_chunk_len(cd, i) = ite((i + 1) * cd.QuotientDegreeFactor <= cd.Config.NumRoutedWires, cd.QuotientDegreeFactor, cd.Config.NumRoutedWires - i * cd.QuotientDegreeFactor)
+// chunk i starts at i*q and has min(q, r - i*q) wires (opaque inside quantified invariants; unfolded by the lemma at the current index)
+//@ opaque def pp_start(q, k) = k * q
+//@ opaque def pp_len(q, r, k) = ite(k * q + q <= r, q, r - k * q)
+//@ lemma pp_defs(q, r, k) = pp_start(q, k) == k * q && pp_len(q, r, k) == ite(k * q + q <= r, q, r - k * q)
+//@   props C16
+//@   reveal pp_start pp_len
+//@ def pp_chunk_start(cd, i) = pp_start(cd.QuotientDegreeFactor, i)
+//@ def pp_chunk_len(cd, i) = pp_len(cd.QuotientDegreeFactor, cd.Config.NumRoutedWires, i)
 //@ def pp_acc(o, c, npp, i) = ite(i == 0, o.PlonkZs[c], ite(i == npp + 1, o.PlonkZsNext[c], o.PartialProducts[c * npp + ite(i == 0, 0, i - 1)]))
 
 //@ func (p *PlonkChip) checkPartialProducts(numerators []gl.QuadraticExtensionVariable, denominators []gl.QuadraticExtensionVariable, challengeNum uint64, openings variables.OpeningSet) (res []gl.QuadraticExtensionVariable)
@@ -52,16 +59,17 @@ package plonk
 //@   circuit
 //@   requires cd_small(p.commonData) && pp_relation(p.commonData) && challengeNum <= pow2(16)
 //@   requires canonQEs(numerators) && canonQEs(denominators) && canonQEs(openings.PlonkZs) && canonQEs(openings.PlonkZsNext) && canonQEs(openings.PartialProducts)
-//@   complete_requires len(numerators) == p.commonData.Config.NumRoutedWires && len(denominators) == p.commonData.Config.NumRoutedWires
+//@   requires len(numerators) == p.commonData.Config.NumRoutedWires && len(denominators) == p.commonData.Config.NumRoutedWires
 //@   complete_requires challengeNum < len(openings.PlonkZs) && challengeNum < len(openings.PlonkZsNext) && (challengeNum + 1) * p.commonData.NumPartialProducts <= len(openings.PartialProducts)
 //@   ensures len(res) == p.commonData.NumPartialProducts + 1 && canonQEs(res)
 //@   ensures forall(i, 0, p.commonData.NumPartialProducts + 1, res[i] == qe_sub(
-//@        qe_mul(pp_acc(openings, challengeNum, p.commonData.NumPartialProducts, i), qe_chunk_prod(numerators, i * p.commonData.QuotientDegreeFactor, pp_chunk_len(p.commonData, i))),
-//@        qe_mul(pp_acc(openings, challengeNum, p.commonData.NumPartialProducts, i + 1), qe_chunk_prod(denominators, i * p.commonData.QuotientDegreeFactor, pp_chunk_len(p.commonData, i)))))
-//@   loop 0 invariant 0 <= i && i <= numPartProds + 1 && i <= pow2(33) && len(productAccs) == numPartProds + 2 && canonQEs(productAccs) && len(partialProductChecks) == i && canonQEs(partialProductChecks) &&
-//@        forall(k, 0, numPartProds + 2, productAccs[k] == pp_acc(openings, challengeNum, numPartProds, k)) &&
-//@        forall(k, 0, i, partialProductChecks[k] == qe_sub(
-//@          qe_mul(pp_acc(openings, challengeNum, numPartProds, k), qe_chunk_prod(numerators, k * quotDegreeFactor, pp_chunk_len(p.commonData, k))),
-//@          qe_mul(pp_acc(openings, challengeNum, numPartProds, k + 1), qe_chunk_prod(denominators, k * quotDegreeFactor, pp_chunk_len(p.commonData, k)))))
-//@   loop 1 invariant 1 <= j && j <= quotDegreeFactor && j <= pow2(33) && canonQE(numeProduct) && canonQE(denoProduct) &&
+//@        qe_mul(pp_acc(openings, challengeNum, p.commonData.NumPartialProducts, i), qe_chunk_prod(numerators, pp_chunk_start(p.commonData, i), pp_chunk_len(p.commonData, i))),
+//@        qe_mul(pp_acc(openings, challengeNum, p.commonData.NumPartialProducts, i + 1), qe_chunk_prod(denominators, pp_chunk_start(p.commonData, i), pp_chunk_len(p.commonData, i)))))
+//@   loop 0 invariant 0 <= i && i <= numPartProds + 1 && i <= pow2(33) && len(productAccs) == numPartProds + 2 && canonQEs(productAccs) && len(partialProductChecks) == i && canonQEs(partialProductChecks)
+//@   loop 0 invariant forall(k, 0, numPartProds + 2, productAccs[k] == pp_acc(openings, challengeNum, numPartProds, k))
+//@   loop 0 invariant forall(k, 0, i, partialProductChecks[k] == qe_sub(
+//@          qe_mul(pp_acc(openings, challengeNum, numPartProds, k), qe_chunk_prod(numerators, pp_chunk_start(p.commonData, k), pp_chunk_len(p.commonData, k))),
+//@          qe_mul(pp_acc(openings, challengeNum, numPartProds, k + 1), qe_chunk_prod(denominators, pp_chunk_start(p.commonData, k), pp_chunk_len(p.commonData, k)))))
+//@   loop 0 use pp_defs(quotDegreeFactor, p.commonData.Config.NumRoutedWires, i)
+//@   loop 1 invariant 1 <= j && j <= quotDegreeFactor && j <= pow2(33) && ppStartIdx + j <= len(numerators) && canonQE(numeProduct) && canonQE(denoProduct) &&
 //@        numeProduct == qe_chunk_prod(numerators, ppStartIdx, j) && denoProduct == qe_chunk_prod(denominators, ppStartIdx, j)
